@@ -281,6 +281,18 @@ def encoder_forwards(F, R):
             R.ob('C04.no-drop', '%s|MqttShared::%s|Ok-only-when-the-codec-said-Ok' % (ver, meth), not own,
                  'the connection-level %s reports success on a path where the protocol codec did not (item skipped, or its error discarded): the response is lost and the connection keeps running' % meth, b.loc(own[0]) if own else b.loc(0))
     R.floor('C04.no-drop', 'codec delegations', n, 4)
+    # the protocol codecs themselves: Ok means the item is in the output buffer - every Ok exit of Encoder::encodev has
+    # passed a call that received the buffer (a packet that is too large is an error, never a silent discard)
+    k = 0
+    for ver in ('v3', 'v5'):
+        b = F.one(r'^<%s::codec::codec::Codec as ntex_codec::Encoder>::encodev$' % ver)
+        wr = {bi for bi, t in b.calls() if any(l[0] == 'arg' and l[1] == 3 for a in t.get('args', []) for l in Origin(b).of_operand(a))}
+        oks = [bi for bi, j, s in agg_sites(b, r'^std::result::Result$', 'Ok') if s['lhs']['l'] in b.ret_locals]
+        for o in oks:
+            k += 1
+            R.ob('C04.no-drop', '%s|Codec::encodev|Ok=>item-written' % ver, bool(wr) and b.must_pass(wr, o),
+                 'the codec reports success for an item it has not written (e.g. a response over the peer\'s Maximum Packet Size discarded with Ok): the request is never answered and the connection keeps running', b.loc(o))
+    R.floor('C04.no-drop', 'Ok exits of the codecs\' encodev', k, 4)
 
 
 def answered(F, R):
@@ -314,6 +326,37 @@ def answered(F, R):
                 R.ob('C04.answered', '%s|%s|no-answer-only-when-closing-or-answered-directly' % (d.name, arm), ok,
                      'the arm can finish without a response on a path that is neither the connection-closed edge nor the duplicate-id edge: the request of a healthy connection is never answered', b.loc(bi))
     R.floor('C04.answered', 'empty-answer sites in request arms', n, 5)
+    # MQTT 3.1.1: the answer kind the control service returns is turned into the response packet by Inner::control - each
+    # kind that stands for a request of the peer yields its packet on every path of its arm (no conditional `None`)
+    m = 0
+    for d in all_dispatchers(F):
+        if d.ver != 'v3':
+            continue
+        b = d.control
+        ve = variant_edges(F, b, 'v3::control::ProtocolMessageKind')
+        targets = {e[1] for es in ve.values() for e in es}
+        for kind in ('Ping', 'Subscribe', 'Unsubscribe', 'PublishRelease', 'PublishAck'):
+            es = ve.get(kind) or []
+            if not es:
+                continue
+            reg = set()
+            for s_, t_ in es:
+                reg |= b.reachable(t_, avoid=targets - {t_})
+            # the arm's own code ends where the arms join again: blocks reachable from another arm are not its own
+            other = set()
+            for k2, es2 in ve.items():
+                if k2 != kind:
+                    for s2, t2 in es2:
+                        if t2 not in {t_ for _, t_ in es}:
+                            other |= b.reachable(t2, avoid=targets - {t2})
+            own = reg - other
+            if any((callee_name(b.blocks[x]['term']) or '').startswith('core::panicking') for x in own if b.blocks[x]['term']['k'] == 'call'):
+                continue    # unreachable!() arm of the other role
+            nones = [x for x, j, s in agg_sites(b, r'^std::option::Option$', 'None') if x in own and re.search(r'^std::option::Option<v3::codec::Encoded>$', b.local_ty(s['lhs']['l']) or '')]
+            m += 1
+            R.ob('C04.answered', '%s|control|%s|always-yields-its-packet' % (d.name, kind), not nones,
+                 'the control path can turn the %s answer of the control service into no packet at all: the peer\'s request stays unanswered on a healthy connection and later responses take its place' % kind, b.loc(nones[0]) if nones else None)
+    R.floor('C04.answered', 'v3 answer kinds mapped to packets', m, 5)
 
 
 def run(F, R):
